@@ -27,6 +27,8 @@ _burn = st.one_of(st.sampled_from([0, 0, 1, 2]), st.integers(0, 40), st.sampled_
                   st.sampled_from([100, 257, 999, 1000, 2047]))
 _thin = st.one_of(st.sampled_from([1, 1, 2, 3]), st.integers(1, 12), st.sampled_from(["len+1"]), st.sampled_from([50, 100, 333]))
 
+_LONG = [1000, 2500, 4100, 4200, 5000, 6000]  # read-outs of more than 4096 rows are the point here
+
 
 @st.composite
 def _scenario(draw, tier):
@@ -36,7 +38,7 @@ def _scenario(draw, tier):
         if cfg["kind"] == "ensemble":
             k = draw(st.sampled_from(["advance", "advance", "restart"]))
             if k == "advance":
-                ops.append(["advance", lc.maybe_long(draw, draw(st.sampled_from([0, 1, 2, 3, 6])), cfg)])
+                ops.append(["advance", lc.maybe_long(draw, draw(st.sampled_from([0, 1, 2, 3, 6])), cfg, sizes=_LONG)])
             else:
                 ops.append(["restart"])
         else:
@@ -44,7 +46,7 @@ def _scenario(draw, tier):
             if k == "step":
                 ops.append(["step"])
             elif k == "advance":
-                ops.append(["advance", lc.maybe_long(draw, draw(st.sampled_from([0, 1, 2, 5, 11, 30, 64])), cfg)])
+                ops.append(["advance", lc.maybe_long(draw, draw(st.sampled_from([0, 1, 2, 5, 11, 30, 64])), cfg, sizes=_LONG)])
             elif k == "exchange":
                 ops.append(["exchange", draw(st.integers(0, 2 ** 16))])
             elif k == "scribble":
@@ -93,6 +95,8 @@ def check_readout(V, h, S, P, burn, thin, stats):
     stats["readouts"] += 1
     if k in (0, 1):
         stats["probe_readout_leaves_%d_rows" % k] += 1
+    if k > 4096:
+        stats["probe_readout_leaves_more_than_4096_rows"] += 1
     if gs.shape[0:1] != (k,) or (k >= 1 and gs.shape != (k, h.d)):
         _viol(V, "readout.sample", "%s: get_sample has shape %r, expected (%d, %d)" % (tag, gs.shape, k, h.d))
     elif k >= 1 and not np.array_equal(gs, want_S):
